@@ -103,7 +103,7 @@ Proof.
     destruct (dlookup z (f :: r)); [|discriminate]. destruct (ref_ok z st); [|discriminate]. cbn [andb].
     intros H; inversion H; subst st'. split; [|split; reflexivity].
     cbn [with_stack d_stack map]. rewrite erase_push. destruct (mem z (d_pend st)); reflexivity.
-  - (* vocab *) destruct v as [v| |]; try discriminate. destruct v; try discriminate;
+  - (* vocab *) destruct v as [v| |]; try discriminate. destruct v; try discriminate; cbn [erase]; try destruct (word_ok bs); try discriminate;
       intros H; inversion H; subst st'; (split; [reflexivity|split; reflexivity]).
 Qed.
 
